@@ -40,7 +40,7 @@ pub const VARIANTS: usize = 7;
 /// written before the run, and every item consumes 8/16-bit views only or fully overwrites what
 /// it stores - results must not pick up the random upper bits of the parent registers.
 const E_VARIANT: usize = 7;
-const ITEMS_E: [(&str, &[u8]); 13] = [
+const ITEMS_E: [(&str, &[u8]); 16] = [
     ("mov ah,5", &[0xB4, 0x05]),
     ("mov cx,0x0306", &[0x66, 0xB9, 0x06, 0x03]),
     ("movzx ebx,ah; mov [rsp-16],rbx", &[0x0F, 0xB6, 0xDC, 0x48, 0x89, 0x5C, 0x24, 0xF0]),
@@ -55,6 +55,11 @@ const ITEMS_E: [(&str, &[u8]); 13] = [
     ("cmp al,al; sete sil; movzx edi,sil; mov [rsp-40],rdi", &[0x38, 0xC0, 0x40, 0x0F, 0x94, 0xC6, 0x40, 0x0F, 0xB6, 0xFE, 0x48, 0x89, 0x7C, 0x24, 0xD8]),
     ("cmp al,al; setb r8b; movzx r9d,r8b; mov [rsp-48],r9", &[0x38, 0xC0, 0x41, 0x0F, 0x92, 0xC0, 0x45, 0x0F, 0xB6, 0xC8, 0x4C, 0x89, 0x4C, 0x24, 0xD0]),
     ("cmp al,al; setae r8b; movzx r9d,r8b; mov [rsp-48],r9", &[0x38, 0xC0, 0x41, 0x0F, 0x93, 0xC0, 0x45, 0x0F, 0xB6, 0xC8, 0x4C, 0x89, 0x4C, 0x24, 0xD0]),
+    // results that do not depend on their (never written) operand: a 16-bit register shifted by
+    // more than its width gives 0 and CF = 0, a register minus itself gives 0
+    ("mov cl,20; shr si,cl; setb dl; movzx edx,dl; mov [rsp-56],rdx", &[0xB1, 0x14, 0x66, 0xD3, 0xEE, 0x0F, 0x92, 0xC2, 0x0F, 0xB6, 0xD2, 0x48, 0x89, 0x54, 0x24, 0xC8]),
+    ("mov cl,20; shl di,cl; setb dl; movzx edx,dl; mov [rsp-56],rdx", &[0xB1, 0x14, 0x66, 0xD3, 0xE7, 0x0F, 0x92, 0xC2, 0x0F, 0xB6, 0xD2, 0x48, 0x89, 0x54, 0x24, 0xC8]),
+    ("sub r8d,r8d; mov [rsp-64],r8", &[0x45, 0x29, 0xC0, 0x4C, 0x89, 0x44, 0x24, 0xC0]),
 ];
 fn e_maxlen(maxlen: usize) -> usize {
     maxlen.min(4)
@@ -377,9 +382,22 @@ pub fn enumerate(maxlen: usize, reverse: bool, stop_at: Option<usize>, mut f: im
 /// and prints the digests of that case: `h0 h1 h2 <diff 0/1> <diff 0/2>`.
 pub fn one_case(maxlen: usize, k: usize, reverse: bool) -> i32 {
     let mut line = String::new();
-    enumerate(maxlen, reverse, Some(k), |kk, _n, _v, d, _c| {
+    enumerate(maxlen, reverse, Some(k), |kk, _n, v, d, c| {
         if kk == k {
-            line = format!("{} {} {} {} {}", d[0].hash(), d[1].hash(), d[2].hash(), d[0].diff(&d[1]), d[0].diff(&d[2]));
+            // a leak of a single random bit lets two machines agree half of the time: the
+            // confirmation looks at six more machines of the same case
+            let mut d1 = d[0].diff(&d[1]);
+            let mut d2 = d[0].diff(&d[2]);
+            for _ in 0..6 {
+                let x = run_one(c, v, false);
+                let df = d[0].diff(&x);
+                if d1 == "none" {
+                    d1 = df;
+                } else if d2 == "none" {
+                    d2 = df;
+                }
+            }
+            line = format!("{} {} {} {} {}", d[0].hash(), d[1].hash(), d[2].hash(), d1, d2);
         }
     });
     println!("{line}");
@@ -567,7 +585,7 @@ pub fn run(tier: Tier) -> i32 {
     run.cov("traces_validated_against_impl", json!(cases * 4));
     run.cov("evaluations", json!(cases));
     run.cov("distinct_nontrivial", json!(distinct.len()));
-    run.cov("rule", json!("one case = (program of <= L items over 15 instructions/idioms incl. brk via the built-in handler (query, and growth by 64 KiB), a division whose divisor may be zero, int3, a load, a store and a jump through RBX that fault when RBX is unmapped; variant A: every register written, variant B: only RAX RBX RCX RSP written, the alphabet never reads another register before writing it, variant C: every general-purpose register holds the same unmapped address, variant D: as A with the stack and the argument strings placed by init_stack and init_stack_program_start next to code at 0x1000; variant F: as A, but the machine is loaded from a generated ELF whose symbol table names every address twice; variant E, with its own 13-item alphabet and programs <= 4: only the low 16 bits of RAX RBX RCX RDX written, items that consume 8/16-bit views only); every case runs on 3 independently constructed machines in this process (two by execute(), the third by single steps interleaved with the steps of a decoy machine) and once in a separately exec'd process that meets the cases in the opposite order; digests of registers, flags, every area, count, trace, call stack, their renderings, result and error text must be equal; distinct_nontrivial = distinct digests"));
+    run.cov("rule", json!("one case = (program of <= L items over 15 instructions/idioms incl. brk via the built-in handler (query, and growth by 64 KiB), a division whose divisor may be zero, int3, a load, a store and a jump through RBX that fault when RBX is unmapped; variant A: every register written, variant B: only RAX RBX RCX RSP written, the alphabet never reads another register before writing it, variant C: every general-purpose register holds the same unmapped address, variant D: as A with the stack and the argument strings placed by init_stack and init_stack_program_start next to code at 0x1000; variant F: as A, but the machine is loaded from a generated ELF whose symbol table names every address twice; variant E, with its own 16-item alphabet and programs <= 4: only the low 16 bits of RAX RBX RCX RDX written, items that consume 8/16-bit views only); every case runs on 3 independently constructed machines in this process (two by execute(), the third by single steps interleaved with the steps of a decoy machine) and once in a separately exec'd process that meets the cases in the opposite order; digests of registers, flags, every area, count, trace, call stack, their renderings, result and error text must be equal; distinct_nontrivial = distinct digests"));
     run.cov("exhaustive", json!(true));
     run.cov("program_max_length", json!(maxlen));
     run.cov("machines_per_case", json!(4));
